@@ -18,6 +18,7 @@ func init() {
 	nd.Register("VerifC01String", VerifC01String)
 	nd.Register("VerifC01LongString", VerifC01LongString)
 	nd.Register("VerifC01Mailbox", VerifC01Mailbox)
+	nd.Register("VerifC01LongMailbox", VerifC01LongMailbox)
 	nd.Register("VerifC01Flag", VerifC01Flag)
 	nd.Register("VerifC01Number", VerifC01Number)
 	nd.Register("VerifC01NumSet", VerifC01NumSet)
@@ -74,6 +75,10 @@ func c01tail(dec *imapwire.Decoder, label string) {
 	ok := dec.ExpectSP() && dec.ExpectAtom(&s) && s == "Zz" && dec.ExpectCRLF()
 	nd.Assert(ok, label+"-consumes-exactly-the-bytes-written")
 	nd.Assert(dec.EOF(), label+"-nothing-left")
+	// the decoder is back in its rest state: what it decodes next does not depend on what
+	// it decoded before
+	nd.Assert(dec.VerifListDepth() == 0, label+"-decoder-nesting-state-not-restored")
+	nd.Assert(!dec.VerifLiteralOpen(), label+"-decoder-literal-left-open")
 }
 
 // VerifC01String: every byte string up to the bound, every mode combination, both sides,
@@ -189,6 +194,45 @@ func VerifC01Mailbox() {
 		nd.Assert(got == name, "mailbox-roundtrip-equal")
 	}
 	c01tail(dec, "mailbox")
+}
+
+// VerifC01LongMailbox: names longer than the 128-byte chunks in which the UTF-7 transformer
+// is fed (x/text transform.String): a concrete filler of 2-byte characters (optionally
+// shifted by one ASCII byte so that the chunk boundary falls inside / between characters)
+// with a window of symbolic bytes straddling the boundary; the encoded form also exceeds
+// the 128-byte destination chunk.
+func VerifC01LongMailbox() {
+	total := nd.Param("len")
+	pre := nd.Concretize(nd.Choice(2))
+	at := 128 - 2 + nd.Concretize(nd.Choice(3)) - 1 // window starts at 125, 126 or 127
+	b := make([]byte, 0, total)
+	for i := 0; i < pre; i++ {
+		b = append(b, 'A')
+	}
+	for len(b)+1 < total {
+		b = append(b, 0xd0, 0xb4) // U+0434
+	}
+	for len(b) < total {
+		b = append(b, 'z')
+	}
+	for i := 0; i < nd.Param("w"); i++ {
+		b[at+i] = nd.Byte()
+	}
+	name := string(b)
+	nd.Assume(utf8.ValidString(name))
+	l := c01encoder()
+	l.enc.Mailbox(name)
+	err := l.finish()
+	nd.Reach("long-mailbox-encoded")
+	nd.Assert(err == nil, "long-mailbox-always-representable")
+	if err != nil {
+		return
+	}
+	dec := l.decoder()
+	var got string
+	nd.Assert(dec.ExpectMailbox(&got), "long-mailbox-decodes")
+	nd.Assert(got == name, "long-mailbox-roundtrip-equal")
+	c01tail(dec, "long-mailbox")
 }
 
 var c01wellKnown = []string{"\\Seen", "\\Answered", "\\Flagged", "\\Deleted", "\\Draft", "$Forwarded", "$MDNSent", "$Junk", "$NotJunk", "$Phishing", "$Important",
